@@ -22,12 +22,18 @@ def run(chk, tier):
     import capfield
     ncf = capfield.run(chk, P, units=('bitmap.c',))
     chk.floor("R-CAPFIELD", "recorded capacities paired with an allocation", ncf, 2)
+    chk.rule("R-WORDIDX", "every word index into a bitmap's ulongs[] is below its word count on every path (abstract interpretation over difference-bound matrices with trace partitioning; "
+             "helpers' post-conditions trusted; five functions frozen out of scope with the reason)")
+    import zone
+    nz_ok, nz_f, nz_out = zone.run(chk, P)
+    chk.floor("R-WORDIDX", "word accesses proved in range", nz_ok, 60)
     chk.rule("R-MINUS1", "documented -1 conventions for infinite sets")
     bitmaprules.early_minus_one(chk, P)
     chk.rule("R-PROG", "loop progress")
     nl = progloops.run(chk, P, ["bitmap.c"])
     chk.floor("R-PROG", "in-scope loops", nl, 18)
-    chk.decided += ['ulongs_allocated always records the size of the ulongs allocation',
+    chk.decided += ["word indexes into ulongs[] stay below the word count in every bitmap function but the five listed as out of scope",
+                    'ulongs_allocated always records the size of the ulongs allocation',
                     "results do not depend on whether the destination aliases an operand (effect order on all paths)",
                     "results do not depend on the history that built a set (allocation size never consulted; infinite flag always consulted; defining functions overwrite)",
                     "-1 conventions for infinite sets (weight/last/last_unset/nr_ulongs)"]
